@@ -22,7 +22,9 @@
 package c16_auth
 
 import (
+	"bytes"
 	"encoding/base64"
+	"io"
 	"fmt"
 	"net"
 	"net/http"
@@ -43,10 +45,12 @@ import (
 	"github.com/influxdata/influxdb/services/httpd"
 	"github.com/influxdata/influxdb/services/meta"
 	"github.com/influxdata/influxql"
+	"github.com/hashicorp/raft"
 	"golang.org/x/crypto/bcrypt"
 	"pgregory.net/rapid"
 
 	"verifsim/core"
+	"verifsim/metacmd"
 	"verifsim/simnet"
 )
 
@@ -69,6 +73,13 @@ type op struct {
 	CUser  int // credential user
 	CPass  int // credential password
 	Settle bool
+	// Via: the change is issued through the node's real meta.Client method
+	// (SetPrivilege, SetAdminPrivilege, UpdateUser, DropUser - what the
+	// statement executor calls for GRANT / REVOKE / SET PASSWORD / DROP USER),
+	// travels to the metadata server's execute endpoint and is applied there
+	// by the real state machine; otherwise the harness edits the
+	// authoritative metadata itself.
+	Via bool
 }
 
 type plan struct {
@@ -149,6 +160,7 @@ func genPlan(t *rapid.T) interface{} {
 			CUser:  rapid.IntRange(0, len(userNames)-1).Draw(t, l+".cuser"),
 			CPass:  rapid.SampledFrom([]int{0, 1, 2, 3, 3, 3, 3}).Draw(t, l+".cpass"), // 3 = the user's current password
 			Settle: rapid.IntRange(0, 3).Draw(t, l+".settle") > 0,
+			Via:    rapid.IntRange(0, 2).Draw(t, l+".via") == 0,
 		}
 		k := rapid.IntRange(0, 19).Draw(t, l+".kind")
 		if i < 3 && rapid.IntRange(0, 3).Draw(t, l+".boot") > 0 {
@@ -231,9 +243,14 @@ type metaServer struct {
 	cond    *sync.Cond
 	data    *meta.Data
 	latency time.Duration
+	executed int // commands applied through the execute endpoint
 }
 
 func (s *metaServer) ServeHTTP(w http.ResponseWriter, r *http.Request) {
+	if r.Method == "POST" && strings.HasSuffix(r.URL.Path, "/execute") {
+		s.execute(w, r)
+		return
+	}
 	idx, _ := strconv.ParseUint(r.URL.Query().Get("index"), 10, 64)
 	s.mu.Lock()
 	for s.data.Index <= idx {
@@ -251,6 +268,41 @@ func (s *metaServer) ServeHTTP(w http.ResponseWriter, r *http.Request) {
 		return
 	}
 	w.Write(b)
+}
+
+// execute applies a command sent by a meta client with the real state
+// machine: a fresh one is restored from the authoritative metadata, applies
+// the command as log entry Index+1, and its result becomes the authoritative
+// metadata. The answer is the protobuf Response{OK, Error, Index}.
+func (s *metaServer) execute(w http.ResponseWriter, r *http.Request) {
+	body, err := io.ReadAll(r.Body)
+	if err != nil {
+		http.Error(w, err.Error(), 400)
+		return
+	}
+	s.mu.Lock()
+	defer s.mu.Unlock()
+	b, err := s.data.MarshalBinary()
+	if err != nil {
+		http.Error(w, err.Error(), 500)
+		return
+	}
+	fsm := meta.VerifNewFSM(meta.NewConfig())
+	if err := fsm.Restore(io.NopCloser(bytes.NewReader(b))); err != nil {
+		http.Error(w, err.Error(), 500)
+		return
+	}
+	res := fsm.Apply(&raft.Log{Index: s.data.Index + 1, Term: 1, Type: raft.LogCommand, Data: body})
+	out := new(metacmd.Buf)
+	if e, ok := res.(error); ok && e != nil {
+		out.Bool(1, false).Str(2, e.Error()).Uint(3, s.data.Index)
+	} else {
+		s.data = fsm.Data().Clone()
+		s.executed++
+		s.cond.Broadcast()
+		out.Bool(1, true).Uint(3, s.data.Index)
+	}
+	w.Write(out.B)
 }
 
 func (s *metaServer) apply(f func(d *meta.Data) error) (uint64, error) {
@@ -409,6 +461,37 @@ func exec(run *core.Run, pl interface{}) {
 		}
 		run.Probe("change-" + o.Kind)
 	}
+	// changeVia issues the change through the node's own meta client: the
+	// real client method, the execute endpoint, the real state machine, and
+	// the client's wait for the change to come back with the next snapshot.
+	changeVia := func(o *op, name string, call func() error, apply func()) {
+		done := make(chan error, 1)
+		go func() { done <- call() }()
+		var err error
+		select {
+		case err = <-done:
+		case <-time.After(2 * time.Minute):
+			run.Fail("metadata-command-never-returned", "", "%s %s through the meta client did not return within two simulated minutes", o.Kind, name)
+			return
+		}
+		if err != nil {
+			run.Logf("%s %s through the meta client: refused: %v", o.Kind, name, err)
+			return
+		}
+		apply()
+		ms.mu.Lock()
+		idx := ms.data.Index
+		ms.mu.Unlock()
+		lastIdx = idx
+		if !settle(idx) {
+			return
+		}
+		for k := range pending {
+			delete(pending, k)
+		}
+		run.Probe("change-" + o.Kind)
+		run.Probe("change-through-meta-client")
+	}
 	reached := func(name string) bool {
 		idx, ok := pending[name]
 		if !ok {
@@ -489,13 +572,25 @@ func exec(run *core.Run, pl interface{}) {
 				m.users[name] = &muser{pass: pw, admin: o.Admin, privs: map[string]int{}}
 			})
 		case "dropuser":
+			if o.Via {
+				changeVia(o, name, func() error { return client.DropUser(name) }, func() { delete(m.users, name) })
+				break
+			}
 			change(o, name, func(d *meta.Data) error { return d.DropUser(name) }, func() { delete(m.users, name) })
 		case "passwd":
 			pw := passwords[o.Pass]
+			if o.Via {
+				changeVia(o, name, func() error { return client.UpdateUser(name, pw) }, func() { m.users[name].pass = pw })
+				break
+			}
 			change(o, name, func(d *meta.Data) error { return d.UpdateUser(name, hash(pw)) }, func() { m.users[name].pass = pw })
 		case "grant":
 			db := dbs[o.DB]
 			priv := []influxql.Privilege{influxql.NoPrivileges, influxql.ReadPrivilege, influxql.WritePrivilege, influxql.AllPrivileges}[o.Priv]
+			if o.Via {
+				changeVia(o, name, func() error { return client.SetPrivilege(name, db, priv) }, func() { m.users[name].privs[db] = o.Priv })
+				break
+			}
 			change(o, name, func(d *meta.Data) error { return d.SetPrivilege(name, db, priv) }, func() { m.users[name].privs[db] = o.Priv })
 		case "admin":
 			change(o, name, func(d *meta.Data) error { return d.SetAdminPrivilege(name, o.Admin) }, func() { m.users[name].admin = o.Admin })
